@@ -55,7 +55,7 @@ def enumerate_cases(tier, seed):
     yield ("single", {"fam": "uniform", "par": [12, 172], "unit": UNITS[2], "J": J})
     yield ("single", {"fam": "gauss", "par": [100.0, 30.0], "unit": UNITS[2], "J": J, "reuse": True})
     J2 = 12 if tier == "quick" else 24
-    pairs = [(("schulz_zimm", (400.0, 300.0)), ("schulz_zimm", (150.0, 120.0))), (("flory_schulz", (0.1,)), ("flory_schulz", (0.02,))), (("gauss", (100.0, 30.0)), ("uniform", (12, 172))), (("uniform", (20, 120)), ("uniform", (20, 120))), (("log_normal", (90.0, 1.3)), ("poisson", (65.0,)))]
+    pairs = [(("schulz_zimm", (400.0, 300.0)), ("schulz_zimm", (150.0, 120.0))), (("schulz_zimm", (600.0, 400.0)), ("schulz_zimm", (105.0, 100.0))), (("log_normal", (600.0, 1.8)), ("log_normal", (60.0, 1.02))), (("flory_schulz", (0.1,)), ("flory_schulz", (0.02,))), (("gauss", (100.0, 30.0)), ("uniform", (12, 172))), (("uniform", (20, 120)), ("uniform", (20, 120))), (("log_normal", (90.0, 1.3)), ("poisson", (65.0,)))]
     if tier == "thorough":
         pairs += [(("gauss", (80.0, 25.0)), ("gauss", (80.0, 25.0))), (("schulz_zimm", (150.0, 120.0)), ("flory_schulz", (0.1,)))]
     for a, b in pairs:
@@ -105,6 +105,8 @@ def eval_case(kind, data):
     text = "N" + "".join(f"{{[>]{u}[<]}}|{dist_text(f, p)}|" for (f, p), u in zip(laws, units)) + "F"
     masses = [token_ref(u).mass for u in units]
     grid = [(j + 0.5) / J for j in range(J)]
+    if kind != "single":
+        grid = [0.004] + grid + [0.99, 0.998]  # product grids are coarse: the tails are added explicitly
     shared = gbigsmiles.Molecule(text) if data.get("reuse") else None
     hist = {}
     skipped = 0
